@@ -198,21 +198,23 @@ def rule_translation(check, rules):
                 part = pol
                 pterm = ('COND', ('lit', a, True))
         key0 = 'forward_signatures|translate|partial=%s' % part
-        if key0 in seen:
-            continue
-        seen.add(key0)
-        n += 1
         b = _bind(fw, [x for x in c.args if x[0] != 'STAR'][:3], c.kws)
         stars = [x for x in c.args if x[0] == 'STAR']
         problems = []
         if b is None:
-            check.inconclusive(rules['translate'], site_of(fi, c.node), 'cannot bind the arguments of forwards()', key=key0)
+            if key0 not in seen:
+                seen.add(key0)
+                check.inconclusive(rules['translate'], site_of(fi, c.node), 'cannot bind the arguments of forwards()', key=key0)
             continue
         if b.get('outer') != sigp:
             problems.append('outer signature is %s, expected the examined function\'s signature' % show(b.get('outer'))[:60])
         inner = b.get('inner')
         fs_calls = [e for e in sp.effects if e.kind == 'call' and str(e.op).endswith(':forged_signature')]
-        if not fs_calls or inner != fs_calls[-1].result:
+        if inner is not None and inner[0] == 'S' and not fs_calls:
+            problems.append('the callee signature is read from a memo (%s) instead of being retrieved with the known arguments of *this* call: '
+                            'two calls through the same higher-order callee with different targets get the first target\'s parameters'
+                            % show(inner)[:50])
+        elif not fs_calls or inner != fs_calls[-1].result:
             problems.append('inner signature is %s, expected forged_signature(<callee>, args=..., kwargs=...)' % show(inner)[:60])
         else:
             fk = dict(fs_calls[-1].kws)
@@ -255,6 +257,11 @@ def rule_translation(check, rules):
             elif fs_calls and fs_calls[-1].args and fs_calls[-1].args[0] != pops[0].result:
                 problems.append('with functools.partial as callee, the recursive retrieval inspects %s instead of the first forwarded positional'
                                 % show(fs_calls[-1].args[0])[:60])
+        kd = key0 + '|' + '|'.join(m[:30] for m in problems)
+        if kd in seen:
+            continue
+        seen.add(kd)
+        n += 1
         if problems:
             for m in problems[:3]:
                 check.violation(rules['translate'], site_of(fi, c.node), m, key=key0 + '|' + m[:40], guards=gtext, effect=repr(c)[:300],
@@ -262,6 +269,28 @@ def rule_translation(check, rules):
         else:
             check.holds(rules['translate'], site_of(fi, c.node), 'the call record is translated field by field into forwards() (partial=%s)' % part, key=key0,
                         guards=gtext, effect=repr(c)[:300])
+    # the known-arguments mapping is what the caller bound, nothing more: BoundArguments.apply_defaults() would add the
+    # defaults of every parameter the caller did not bind, and a callee passed through such a parameter at call time
+    # would be resolved to the default callee
+    key = 'forward_signatures|known-arguments'
+    bad = None
+    binds = 0
+    for p in paths:
+        for e, g_ in walk_effects(p.effects):
+            if e.kind == 'call' and e.op == '.bind_partial':
+                binds += 1
+            if e.kind == 'call' and e.op == '.apply_defaults':
+                bad = e
+    if bad is not None:
+        check.violation(rules['translate'], site_of(fi, bad.node), 'the known arguments are completed with the defaults of the unbound parameters '
+                        '(apply_defaults): a callee parameter the caller leaves open is resolved to its default value, and the default callee\'s '
+                        'parameters are advertised although any other callable may be passed', key=key,
+                        witness='partial(w, 1) with def w(a, *args, wrapped=_default, **kwargs): wrapped(*args, **kwargs)')
+    elif binds:
+        check.holds(rules['translate'], site_of(fi, fi.node), 'names are resolved in exactly the arguments the caller bound (bind_partial, no defaults)',
+                    key=key)
+    else:
+        check.inconclusive(rules['translate'], site_of(fi, fi.node), 'binding of the known arguments (sig.bind_partial) not found', key=key)
     check.floor(rules['translate'], 'translating paths of forward_signatures', yields, 1)
     check.floor(rules['fallback'], 'skip/failure paths of forward_signatures', n, 4)
     # empty result -> UnknownForwards ; merge over all calls
